@@ -812,8 +812,10 @@ theorem close_table_layout2 {s s' : WState} {cat : Obj} {info : Option Obj} {tr 
             split at hb
             · simp at hb
             · rename_i hh
-              simp only [Option.some.injEq] at hb
-              exact ⟨hb.symm, by simpa using hh⟩
+              split at hb
+              · simp at hb
+              · simp only [Option.some.injEq] at hb
+                exact ⟨hb.symm, by simpa using hh⟩
           obtain ⟨hbody, hnoStm⟩ := hbody
           subst hbody
           obtain ⟨_, hc⟩ := optPut_ref hs' h1
